@@ -1,0 +1,46 @@
+// Copyright 2020-2025 Buf Technologies, Inc.
+//
+// Licensed under the Apache License, Version 2.0 (the "License");
+// you may not use this file except in compliance with the License.
+// You may obtain a copy of the License at
+//
+//      http://www.apache.org/licenses/LICENSE-2.0
+//
+// Unless required by applicable law or agreed to in writing, software
+// distributed under the License is distributed on an "AS IS" BASIS,
+// WITHOUT WARRANTIES OR CONDITIONS OF ANY KIND, either express or implied.
+// See the License for the specific language governing permissions and
+// limitations under the License.
+
+//go:build verif
+
+package cache
+
+// Contracts for the gocv verifier (see /verif/DESIGN.md). Comment-only. (author ca-A2)
+//
+// C10: the memoising cache behind ModuleSet.getModuleForFilePath and moduleReadBucket.getFileInfo. A miss returns
+// exactly what the uncached function returns (value AND error) and stores that pair under the key; a hit returns the
+// stored pair without calling the function; no other key is touched. (Sequential model: the locks have no effect.)
+//@ func newResult(value, err) (r)
+//@   property C10
+//@   ensures r != nil && !old(allocated(r)) && r.value == value && r.err == err
+//@ func (c *Cache) getOrAddInsideWriteLock(key, getUncached) (r, err)
+//@   property C10
+//@   callback pure getUncached
+//@   modifies heap Cache_K__V_.store
+//@   ensures miss-returns-uncached: !(key in old(c.store)) ==> r == first(getUncached()) && err == second(getUncached())
+//@   ensures hit-returns-stored: (key in old(c.store)) ==> r == old(c.store[key].value) && err == old(c.store[key].err)
+//@   ensures pair-stored: c.store != nil && (key in c.store) && c.store[key].value == r && c.store[key].err == err
+//@   ensures only-this-key-added: dom(c.store) == add(dom(old(c.store)), key)
+//@   ensures hit-keeps-entry: (key in old(c.store)) ==> c.store[key] == old(c.store)[key]
+//@   ensures other-caches-untouched: forall o *Cache :: o != c ==> o.store == old(o.store)
+//@ func (c *Cache) GetOrAdd(key, getUncached) (r, err)
+//@   property C10
+//@   callback pure getUncached
+//@   modifies heap Cache_K__V_.store
+//@   ensures miss-returns-uncached: !(key in old(c.store)) ==> r == first(getUncached()) && err == second(getUncached())
+//@   ensures hit-returns-stored: (key in old(c.store)) ==> r == old(c.store[key].value) && err == old(c.store[key].err)
+//@   ensures pair-stored: (key in c.store) && c.store[key].value == r && c.store[key].err == err
+//@   ensures only-this-key-added: dom(c.store) == add(dom(old(c.store)), key)
+//@   ensures hit-keeps-entry: (key in old(c.store)) ==> c.store[key] == old(c.store)[key]
+//@   ensures other-caches-untouched: forall o *Cache :: o != c ==> o.store == old(o.store)
